@@ -155,6 +155,8 @@ def pattern_level(ctx, alg, iso, cfg, name, kx, ky):
         ctx.count('hodge_vs_reference' if 'hodge' in op else 'polarity_vs_reference')
         ctx.case(cid)
         res[op] = r
+        if ctx.rng.random() < 0.1:
+            ops.check_special_values(ctx, alg, iso, cfg, op, (kx,), cid)
     if ctx.evaluations % 300 < 4:
         ctx.sample({'config': name, 'keys_a': list(kx), 'keys_b': list(ky), 'r': alg.r, 'pss_sign': iso.pss_sign})
     # round trips
@@ -240,6 +242,8 @@ def pattern_level(ctx, alg, iso, cfg, name, kx, ky):
         if st not in ('timeout', 'raised'):
             ctx.count('rp_vs_reference')
             ctx.case(cid)
+            if ctx.rng.random() < 0.12:
+                ops.check_special_values(ctx, alg, iso, cfg, 'rp', (kx, ky), cid)
             b = ops.generic_mv(alg, ky, 'b')
             st2, w = ctx.guarded(30, lambda: (a.hodge() ^ b.hodge()).unhodge())
             if st2 == 'ok':
